@@ -1236,6 +1236,45 @@ func ruleCNT1(c *Ctx) []Ob {
 		if !usesSkip || !usesLimit || fn.Signature.Results().Len() == 0 || !isIntType(fn.Signature.Results().At(0).Type()) {
 			continue
 		}
+		// only where the number is an answer: the result reaches the int result of an exported operation
+		// (a size hint for pre-allocating a buffer is not a count)
+		var answers func(f *ssa.Function, depth int) bool
+		answers = func(f *ssa.Function, depth int) bool {
+			if depth > 4 {
+				return false
+			}
+			if f.Object() != nil && f.Object().Exported() && f.Parent() == nil {
+				return true
+			}
+			for _, site := range c.staticCallers(f) {
+				cv, ok := site.(*ssa.Call)
+				if !ok {
+					continue
+				}
+				caller := cv.Parent()
+				for _, ret := range returnsOf(caller) {
+					for i := range ret.Results {
+						rv, ok := returnedValue(ret, i)
+						if !ok || !isIntType(rv.Type()) {
+							continue
+						}
+						for _, og := range origins(rv) {
+							hit := og == ssa.Value(cv)
+							if ex, ok := og.(*ssa.Extract); ok && ex.Tuple == ssa.Value(cv) {
+								hit = true
+							}
+							if hit && answers(caller, depth+1) {
+								return true
+							}
+						}
+					}
+				}
+			}
+			return false
+		}
+		if !answers(fn, 0) {
+			continue
+		}
 		// every non-constant origin (through phis) of v is `x - GetSkip()`
 		var afterSkip func(v ssa.Value, seen map[ssa.Value]bool) bool
 		afterSkip = func(v ssa.Value, seen map[ssa.Value]bool) bool {
@@ -3216,7 +3255,21 @@ func nonNegative(v ssa.Value, depth int) bool {
 			all := true
 			for _, ret := range returnsOf(g) {
 				rv, ok := returnedValue(ret, 0)
-				if !ok || !nonNegative(rv, depth+1) {
+				if !ok {
+					all = false
+					continue
+				}
+				if nonNegative(rv, depth+1) {
+					continue
+				}
+				// `if n < 0 { return 0 }; ...; return n`: the return is reached only with n >= 0
+				var edges []edge
+				ifEdges(g, func(cond ssa.Value, e edge) {
+					if edgeNonNeg(e.From, e.to(), rv) {
+						edges = append(edges, e)
+					}
+				})
+				if !guardedBy(g, ret.Block(), edges) {
 					all = false
 				}
 			}
@@ -3300,6 +3353,52 @@ func edgeNonNeg(p, succ *ssa.BasicBlock, v ssa.Value) bool {
 	return false
 }
 
+// hasSubtraction: the computation of v (through phis, conversions, arithmetic
+// and the returns of static callees with a body) involves a subtraction or a negation.
+func (c *Ctx) hasSubtraction(v ssa.Value, depth int, seen map[ssa.Value]bool) bool {
+	if v == nil || seen[v] || depth > 8 {
+		return false
+	}
+	seen[v] = true
+	switch x := v.(type) {
+	case *ssa.BinOp:
+		if x.Op == token.SUB {
+			return true
+		}
+		return c.hasSubtraction(x.X, depth+1, seen) || c.hasSubtraction(x.Y, depth+1, seen)
+	case *ssa.UnOp:
+		if x.Op == token.SUB {
+			return true
+		}
+		if x.Op == token.MUL {
+			if al, ok := x.X.(*ssa.Alloc); ok {
+				for _, sv := range storesTo(al) {
+					if c.hasSubtraction(sv, depth+1, seen) {
+						return true
+					}
+				}
+			}
+		}
+	case *ssa.Phi:
+		for _, e := range x.Edges {
+			if c.hasSubtraction(e, depth+1, seen) {
+				return true
+			}
+		}
+	case *ssa.Convert:
+		return c.hasSubtraction(x.X, depth+1, seen)
+	case *ssa.Call:
+		if g := x.Common().StaticCallee(); g != nil && len(g.Blocks) > 0 && c.IsLib(c.declared(g)) {
+			for _, ret := range returnsOf(g) {
+				if rv, ok := returnedValue(ret, 0); ok && c.hasSubtraction(rv, depth+1, seen) {
+					return true
+				}
+			}
+		}
+	}
+	return false
+}
+
 // PANIC3: the length and capacity handed to make are provably not negative
 // (constants, len/cap, sums of those) or guarded by a sign test: a size
 // computed by subtracting caller-controlled quantities (a counter minus the
@@ -3321,6 +3420,9 @@ func rulePANIC3(c *Ctx) []Ob {
 				for _, sz := range []ssa.Value{ms.Len, ms.Cap} {
 					if sz == nil || nonNegative(sz, 0) {
 						continue
+					}
+					if !c.hasSubtraction(sz, 0, map[ssa.Value]bool{}) {
+						continue // a quantity obtained without subtraction (a size reported by a dependency, a counter)
 					}
 					// a sign test dominating the make: sz >= 0, sz > k, !(sz < 0)
 					guards := guardEdges(fn, func(cond ssa.Value, branch bool) bool {
@@ -3520,6 +3622,411 @@ func ruleDEAD1(c *Ctx) []Ob {
 				}
 			}
 		}
+	}
+	return o.list
+}
+
+// ---------------------------------------------------------------- RNG4
+
+// RNG4: the stop condition of the range scan, as a truth table. The scan
+// function (the one in package index that takes a *Range and a direction flag
+// and opens a cursor) is abstractly evaluated with the store and the byte
+// comparisons replaced by injected outcomes: the cursor always has an entry,
+// the entry belongs to the index, and bytes.Compare(entry, far bound) is -1, 0
+// or +1. For each direction x far-bound shape (open, value excluded, value
+// included, the nil-only range) x comparison outcome the entry must be handed
+// to the consumer exactly when it lies inside the far bound.
+func ruleRNG4(c *Ctx) []Ob {
+	o := newObs(c, "RNG4")
+	rt := c.libType("index", "Range")
+	cmp := c.lookupFunc("internal", "Compare")
+	var scan *ssa.Function
+	var rev *ssa.Parameter
+	var rng *ssa.Parameter
+	for _, fn := range c.LibFuncs {
+		if c.pkgRel(fn) != "index" || fn.Parent() != nil {
+			continue
+		}
+		var r, g *ssa.Parameter
+		allCalls(fn, func(call ssa.CallInstruction) {
+			if c.isInvokeOf(call, "store", "Tx", "Cursor") {
+				if u, ok := call.Common().Args[0].(*ssa.UnOp); ok && u.Op == token.NOT {
+					if p, ok := u.X.(*ssa.Parameter); ok {
+						r = p
+					}
+				}
+			}
+		})
+		for _, p := range fn.Params {
+			if pt, ok := p.Type().(*types.Pointer); ok && c.libNamedIs(pt.Elem(), "index", "Range") {
+				g = p
+			}
+		}
+		if r != nil && g != nil {
+			scan, rev, rng = fn, r, g
+		}
+	}
+	if scan == nil || rt == nil || cmp == nil {
+		o.add(UNDECIDED, "scan", "-", "range scan function (takes *index.Range and a direction flag, opens a cursor) not found")
+		return softenUndecided(o.list)
+	}
+	st := rt.Underlying().(*types.Struct)
+	fi := map[string]int{}
+	for i := 0; i < st.NumFields(); i++ {
+		fi[st.Field(i).Name()] = i
+	}
+	tok := func(v int64) aval {
+		if v == 0 {
+			return aval{K: aTag, Tag: nil}
+		}
+		return aval{K: aTag, Tag: types.Typ[types.Int64], C: constant.MakeInt64(v)}
+	}
+	nilErr := aval{K: aTag, Tag: nil}
+	emitMark := aval{K: aConst, C: constant.MakeString("EMIT")}
+	type tc struct {
+		reverse bool
+		r       absRange
+		cmp     int64
+		emit    bool
+		what    string
+	}
+	var cases []tc
+	for _, reverse := range []bool{false, true} {
+		for _, shape := range []string{"open", "excluded", "included", "nil-only"} {
+			for _, sign := range []int64{-1, 0, 1} {
+				var r absRange
+				inside := false
+				beyond := sign > 0 // forward: entry > End
+				if reverse {
+					beyond = sign < 0 // reverse: entry < Start
+				}
+				switch shape {
+				case "open":
+					inside = true
+				case "excluded":
+					inside = !beyond && sign != 0
+				case "included", "nil-only":
+					inside = !beyond
+				}
+				if !reverse {
+					switch shape {
+					case "open":
+						r = absRange{2, 0, true, false}
+					case "excluded":
+						r = absRange{2, 6, true, false}
+					case "included":
+						r = absRange{2, 6, true, true}
+					case "nil-only":
+						r = absRange{0, 0, true, true}
+					}
+				} else {
+					switch shape {
+					case "open":
+						r = absRange{0, 6, false, true}
+					case "excluded":
+						r = absRange{2, 6, false, true}
+					case "included":
+						r = absRange{2, 6, true, true}
+					case "nil-only":
+						r = absRange{0, 0, true, true}
+					}
+				}
+				dir := "ascending"
+				if reverse {
+					dir = "descending"
+				}
+				cases = append(cases, tc{reverse, r, sign, inside, fmt.Sprintf("%s scan of %s, entry compares %d with the far bound (%s)", dir, r, sign, shape)})
+			}
+		}
+	}
+	isFuncParamCall := func(call *ssa.Call) bool {
+		if call.Common().IsInvoke() {
+			return false
+		}
+		for _, og := range origins(call.Common().Value) {
+			if p, ok := og.(*ssa.Parameter); ok && p.Parent() == scan {
+				if _, isSig := p.Type().Underlying().(*types.Signature); isSig {
+					return true
+				}
+			}
+		}
+		return false
+	}
+	bad, undec := "", ""
+	for _, tcase := range cases {
+		tcase := tcase
+		lostCmp := false
+		te := c.newTagEval()
+		te.heap = map[int64]map[int]aval{}
+		te.maxVisits = 2
+		rp := te.newObj(map[int]aval{fi["Start"]: tok(tcase.r.s), fi["End"]: tok(tcase.r.e), fi["StartIncluded"]: boolConst(tcase.r.si), fi["EndIncluded"]: boolConst(tcase.r.ei)})
+		te.callHookEnv = func(call *ssa.Call, val func(ssa.Value) aval) ([]aval, bool) {
+			cc := call.Common()
+			switch {
+			case c.isInvokeOf(call, "store", "Cursor", "Valid"):
+				return []aval{boolConst(true)}, true
+			case c.isInvokeOf(call, "store", "Cursor", "Item"):
+				return []aval{{}, nilErr}, true
+			case c.isInvokeOf(call, "store", "Cursor", "Seek"), c.isInvokeOf(call, "store", "Cursor", "Close"):
+				return []aval{nilErr}, true
+			case c.isInvokeOf(call, "store", "Cursor", "Next"):
+				return []aval{}, true
+			case c.isInvokeOf(call, "store", "Tx", "Cursor"):
+				return []aval{{}, nilErr}, true
+			}
+			if isFuncParamCall(call) {
+				return []aval{emitMark}, true
+			}
+			full := calleeFullName(call)
+			switch full {
+			case "bytes.Compare":
+				// injected: sign of (entry compared with the bound); which argument is the bound?
+				isBound := func(v ssa.Value) bool {
+					for _, og := range c.paramSources(v, 0) {
+						if ex, ok := og.(*ssa.Extract); ok {
+							if cl, ok := ex.Tuple.(*ssa.Call); ok {
+								for _, a := range cl.Common().Args {
+									if a == ssa.Value(rng) {
+										return true
+									}
+								}
+							}
+						}
+					}
+					return false
+				}
+				switch {
+				case isBound(cc.Args[1]) && !isBound(cc.Args[0]):
+					return []aval{{K: aConst, C: constant.MakeInt64(tcase.cmp)}}, true
+				case isBound(cc.Args[0]) && !isBound(cc.Args[1]):
+					return []aval{{K: aConst, C: constant.MakeInt64(-tcase.cmp)}}, true
+				}
+				lostCmp = true
+				return []aval{{}}, true
+			case "bytes.HasPrefix":
+				// the skip of an excluded near bound ends at once; the entry belongs to the index
+				nearBound := false
+				for _, og := range c.paramSources(cc.Args[1], 0) {
+					if ex, ok := og.(*ssa.Extract); ok {
+						if _, isCall := ex.Tuple.(*ssa.Call); isCall {
+							nearBound = true
+						}
+					}
+				}
+				return []aval{boolConst(!nearBound)}, true
+			case "errors.Is":
+				return []aval{{}}, true
+			}
+			if g := staticCallee(call); g != nil {
+				g = c.declared(g)
+				if g == cmp {
+					a, b := val(cc.Args[0]), val(cc.Args[1])
+					ta, tb := int64(0), int64(0)
+					if a.K != aTag || b.K != aTag {
+						return []aval{{}}, true
+					}
+					if a.Tag != nil && a.C != nil {
+						ta, _ = constant.Int64Val(a.C)
+					}
+					if b.Tag != nil && b.C != nil {
+						tb, _ = constant.Int64Val(b.C)
+					}
+					r := int64(0)
+					if ta < tb {
+						r = -1
+					} else if ta > tb {
+						r = 1
+					}
+					return []aval{{K: aConst, C: constant.MakeInt64(r)}}, true
+				}
+				// key builders and splitters: bytes in, bytes out - their results are opaque
+				if c.IsLib(g) && g.Signature.Results().Len() >= 1 {
+					allBytes := true
+					for i := 0; i < g.Signature.Results().Len(); i++ {
+						t := g.Signature.Results().At(i).Type()
+						if !isStringOrBytes(t) && !isErrorType(t) {
+							allBytes = false
+						}
+					}
+					if allBytes {
+						out := make([]aval, g.Signature.Results().Len())
+						for i := range out {
+							if isErrorType(g.Signature.Results().At(i).Type()) {
+								out[i] = nilErr
+							}
+						}
+						return out, true
+					}
+				}
+			}
+			return nil, false
+		}
+		args := make([]aval, len(scan.Params))
+		for i, p := range scan.Params {
+			switch p {
+			case rev:
+				args[i] = boolConst(tcase.reverse)
+			case rng:
+				args[i] = rp
+			}
+		}
+		outs := te.Eval(scan, args, 0)
+		emitted, panicked := false, ""
+		for _, oc := range outs {
+			if oc.Panic {
+				panicked = oc.Why
+			}
+			for _, v := range oc.Vals {
+				if v.K == aConst && v.C != nil && v.C.Kind() == constant.String && constant.StringVal(v.C) == "EMIT" {
+					emitted = true
+				}
+			}
+		}
+		switch {
+		case lostCmp:
+			undec = tcase.what + ": a byte comparison whose operands could not be told apart (entry / bound)"
+		case len(outs) == 0:
+			undec = tcase.what + ": no outcome"
+		case panicked != "":
+			undec = tcase.what + ": " + panicked
+		case emitted != tcase.emit:
+			if tcase.emit {
+				bad = tcase.what + ": the entry lies inside the bound but is not handed to the consumer"
+			} else {
+				bad = tcase.what + ": the entry lies outside the bound but is handed to the consumer"
+			}
+		}
+	}
+	key := c.fname(scan) + "/far-bound stop condition (24 cases)"
+	pos := relPath(c, scan.Pos())
+	switch {
+	case bad != "":
+		o.add(VIOLATED, key, pos, "%s", bad)
+	case undec != "":
+		o.add(UNDECIDED, key, pos, "%s", undec)
+	default:
+		o.add(OK, key, pos, "both directions x {open, excluded, included, nil-only} x {-1, 0, +1}: the entry reaches the consumer exactly when it lies inside the far bound")
+	}
+	return softenUndecided(o.list)
+}
+
+// ---------------------------------------------------------------- ADP10
+
+// ADP10: badger's Iterator.Seek treats an empty target as "rewind": on a
+// reverse iterator it lands on the LAST key, whereas the cursor contract (and
+// the bbolt adapter) give no position for a target that sorts before every
+// key. The adapter therefore must not hand an empty target to the iterator
+// without looking at its length (and at the direction).
+func ruleADP10(c *Ctx) []Ob {
+	o := newObs(c, "ADP10")
+	for _, fn := range c.storeImpls("Cursor", "Seek") {
+		var bcall ssa.CallInstruction
+		allCalls(fn, func(ci ssa.CallInstruction) {
+			if strings.HasSuffix(calleeFullName(ci), "badger/v4.Iterator).Seek") {
+				bcall = ci
+			}
+		})
+		if bcall == nil {
+			continue
+		}
+		var keyP ssa.Value
+		for _, p := range fn.Params {
+			if isStringOrBytes(p.Type()) {
+				keyP = p
+			}
+		}
+		key := c.fname(fn) + "/empty target on a reverse iterator"
+		isLenOfKey := func(v ssa.Value) bool {
+			for _, og := range origins(v) {
+				if cl, ok := og.(*ssa.Call); ok {
+					if b, ok := cl.Common().Value.(*ssa.Builtin); ok && b.Name() == "len" && (cl.Common().Args[0] == keyP || sameOrigin(cl.Common().Args[0], keyP)) {
+						return true
+					}
+				}
+			}
+			return false
+		}
+		guards := guardEdges(fn, func(cond ssa.Value, branch bool) bool {
+			bo, ok := cond.(*ssa.BinOp)
+			if !ok {
+				return false
+			}
+			k, isK := constInt(bo.Y)
+			if !isLenOfKey(bo.X) || !isK {
+				return false
+			}
+			switch {
+			case bo.Op == token.GTR && k == 0, bo.Op == token.NEQ && k == 0, bo.Op == token.GEQ && k == 1:
+				return branch
+			case bo.Op == token.EQL && k == 0, bo.Op == token.LEQ && k == 0, bo.Op == token.LSS && k == 1:
+				return !branch
+			}
+			return false
+		})
+		// a test of the direction that keeps reverse iterators away is as good
+		if guardedBy(fn, bcall.Block(), guards) {
+			o.add(OK, key, relPath(c, bcall.Pos()), "the iterator is sought only with a non-empty target")
+			continue
+		}
+		// or: the empty case is handled on a separate path (any branch on len(key) dominating a different treatment)
+		handled := false
+		var dependsOnLen func(v ssa.Value, seen map[ssa.Value]bool) bool
+		dependsOnLen = func(v ssa.Value, seen map[ssa.Value]bool) bool {
+			if v == nil || seen[v] {
+				return false
+			}
+			seen[v] = true
+			if isLenOfKey(v) {
+				return true
+			}
+			switch x := v.(type) {
+			case *ssa.BinOp:
+				return dependsOnLen(x.X, seen) || dependsOnLen(x.Y, seen)
+			case *ssa.Phi:
+				for _, e := range x.Edges {
+					if dependsOnLen(e, seen) {
+						return true
+					}
+				}
+			case *ssa.UnOp:
+				if x.Op == token.NOT {
+					return dependsOnLen(x.X, seen)
+				}
+				if x.Op == token.MUL {
+					// a field of the cursor assigned earlier in this function
+					if _, f, n := fieldOfAddr(x.X); n != nil {
+						for _, b := range fn.Blocks {
+							for _, in := range b.Instrs {
+								if st, ok := in.(*ssa.Store); ok {
+									if _, f2, n2 := fieldOfAddr(st.Addr); n2 != nil && types.Identical(n, n2) && f == f2 && dependsOnLen(st.Val, seen) {
+										return true
+									}
+								}
+							}
+						}
+					}
+				}
+			}
+			return false
+		}
+		// a condition that decides whether the iterator is sought and that looks at len(target)
+		ifEdges(fn, func(cond ssa.Value, e edge) {
+			if !dependsOnLen(cond, map[ssa.Value]bool{}) {
+				return
+			}
+			other := edge{e.From, !e.Branch}
+			if guardedBy(fn, bcall.Block(), []edge{e}) || guardedBy(fn, bcall.Block(), []edge{other}) {
+				handled = true
+			}
+		})
+		if handled {
+			o.add(OK, key, relPath(c, bcall.Pos()), "the length of the target is examined before the iterator is sought")
+		} else {
+			o.add(VIOLATED, key, relPath(c, bcall.Pos()), "the target is handed to badger's Iterator.Seek without looking at its length: for an empty target a reverse iterator rewinds to the LAST key, while the contract (last key at or before the target) and the bbolt adapter give no position")
+		}
+	}
+	if len(o.list) == 0 {
+		o.add(INFO, "badger adapter", "-", "no store.Cursor.Seek implementation calls badger's Iterator.Seek")
 	}
 	return o.list
 }
